@@ -85,6 +85,19 @@ fn check(st: &mut St<X>, s: u64) {
                     format!("{:?}", res),
                 );
             }
+            // the same set converted again right away must give the same answer (no state between calls)
+            if let Ok(again) = guard(|| Two::try_from(s)) {
+                st.rep.evaluations += 1;
+                if again != res {
+                    st.rep.violation(
+                        "converting the same set twice in a row gives the same result",
+                        "Two::try_from(BinaryCard) x2",
+                        inp(),
+                        format!("{:?}", res),
+                        format!("{:?} on the second call", again),
+                    );
+                }
+            }
             if let Ok(t) = res {
                 let back = <u64 as BC64>::from_two(t);
                 st.rep.evaluations += 1;
@@ -101,8 +114,10 @@ pub fn run(ctx: &Ctx) -> Rep {
     let seed = ctx.seed;
     let n_rand = ctx.pick(1_000, 6_500_000, 65_000_000) as usize;
     let chunks = 64usize;
-    let s = par_run(ctx, chunks + 1, mk, |st, ch| {
-        if ch == chunks {
+    // the structured values run first and alone (one thread), so that nothing else calls into the crate
+    // between the two consecutive conversions of the same set; the seeded sets follow on all threads
+    let s = par_run(ctx, 1, mk, |st, _| {
+        {
             check(st, 0);
             st.rep.distinct += 1;
             for a in 0..64 {
@@ -123,8 +138,11 @@ pub fn run(ctx: &Ctx) -> Rep {
                 check(st, v);
                 st.rep.distinct += 1;
             }
-            return;
         }
+    });
+    let (r0, xs0) = merge_states(s);
+    rep.merge(r0);
+    let s = par_run(ctx, chunks, mk, |st, ch| {
         let mut rng = Rng::new(seed, 0xC16_0000 + ch as u64);
         for it in 0..(n_rand / chunks) {
             let k = (it % 65) as u32;
@@ -149,7 +167,7 @@ pub fn run(ctx: &Ctx) -> Rep {
     let (r, xs) = merge_states(s);
     rep.merge(r);
     let mut acc = mk();
-    for x in xs {
+    for x in xs0.into_iter().chain(xs) {
         acc.ok += x.ok;
         acc.not_enough += x.not_enough;
         acc.too_many += x.too_many;
